@@ -207,8 +207,20 @@ fn o_hist(h: &crate::history::Hist<TwoSpellings>, st: &mut Stats) -> Result<(), 
     crate::history::judge(h, &s, o_two, st)
 }
 
+fn o_session(s: &crate::history::Session<TwoSpellings>, st: &mut Stats) -> Result<(), String> {
+    crate::history::judge_session(s, o_two, st)
+}
+
 pub fn sections() -> Vec<Box<dyn Section>> {
     vec![
+        Box::new(Random {
+            name: "sessions-of-two-spellings".into(),
+            quick: 60,
+            thorough: 2000,
+            strategy: Box::new(|_| crate::history::gsession(gtwo())),
+            oracle: o_session,
+            required: vec!["judged inside a session", "session of 1000 or more cases"],
+        }),
         Box::new(Random {
             name: "two-spellings-after-a-prelude".into(),
             quick: 16_000,
